@@ -193,6 +193,30 @@ static void run_zoo(Rng &r)
             free(buf);
             break;
         }
+        // the same states seen from Mid::ports below a caller-supplied location of 5 or of about 270 characters
+        if((s & 32u) == 0 && g == e) {
+            for(int longp = 0; longp < 2; ++longp) {
+                std::string P = longp ? "/" + std::string(130, 'p') + "/" + std::string(132, 'q') + "/mid/" : "/mid/";
+                char *b3 = (char *)calloc(2048, 1);
+                strcpy(b3, P.c_str());
+                std::vector<Rec> got3;
+                rtosc::walk_ports(&Mid::ports, b3, 2048, &got3, walker_cb, true, &root.mid);
+                count(longp ? "zoo.walks_below_long_location" : "zoo.walks_below_short_location");
+                std::multiset<std::string> e3, g3;
+                for(auto &x : e) if(x.compare(0, 5, "/mid/") == 0) e3.insert(P + x.substr(5));
+                for(auto &x : got3) g3.insert(x.addr);
+                if(strcmp(b3, P.c_str())) fail("name_buffer_not_restored", {}, sdesc + fmt(" walk of Mid::ports below a location of %zu characters", P.size()), vis(std::string(b3).substr(0, 80)), "the location");
+                if(g3 != e3) {
+                    std::string miss, extra;
+                    for(auto &x : e3) if(g3.count(x) < e3.count(x)) { miss = x; break; }
+                    for(auto &x : g3) if(e3.count(x) < g3.count(x)) { extra = x; break; }
+                    if(extra.size() > 40) extra = "..." + extra.substr(extra.size() - 40);
+                    if(miss.size() > 40) miss = "..." + miss.substr(miss.size() - 40);
+                    fail("walk_below_location", {fmt("placement_%d", c.enable_placement)}, sdesc + fmt(" walk of Mid::ports below a location of %zu characters", P.size()), fmt("%zu reported; extra/duplicate '%s', missing '%s'", got3.size(), extra.c_str(), miss.c_str()), fmt("%zu addresses", e3.size()));
+                }
+                free(b3);
+            }
+        }
         // a walk that starts at the object's own table, below a caller-supplied prefix
         if((s & ~(2u | 32u)) == 0) {      // only the object's own toggle matters here
             for(int which = 0; which < (c.has_top ? 2 : 1); ++which) {
